@@ -56,6 +56,74 @@ func sprintfShape(p *load.Program, v ssa.Value) ([]keyTok, error) {
 		v = cv.X
 	}
 	cl, ok := v.(*ssa.Call)
+	if ok {
+		// the same key written with append / strconv.AppendUint instead of one Sprintf
+		switch facts.CalleeName(&cl.Call) {
+		case "strconv.AppendUint":
+			if base, isK := constInt(cl.Call.Args[2]); !isK || base != 10 {
+				return nil, fmt.Errorf("AppendUint with a base other than 10")
+			}
+			pre, err := sprintfShape(p, cl.Call.Args[0])
+			if err != nil {
+				return nil, err
+			}
+			val := strip(cl.Call.Args[1])
+			if cv, isCv := val.(*ssa.Convert); isCv {
+				if b, isB := cv.X.Type().Underlying().(*types.Basic); isB && b.Info()&types.IsUnsigned != 0 {
+					val = cv.X // widening of an unsigned field
+				}
+			}
+			return append(pre, keyTok{Verb: "%d", Type: types.TypeString(val.Type(), func(p *types.Package) string { return p.Name() }), Alpha: "[0-9]", Src: facts.Term(val)}), nil
+		case "append":
+			pre, err := sprintfShape(p, cl.Call.Args[0])
+			if err != nil {
+				return nil, err
+			}
+			arg := cl.Call.Args[1]
+			// append(dst, 'c') — a one-element variadic array of a constant byte
+			if el := singleVararg(arg); el != nil {
+				if k, isK := el.(*ssa.Const); isK && k.Value != nil {
+					if n, okN := constant.Int64Val(k.Value); okN {
+						return append(pre, keyTok{Lit: string(rune(n))}), nil
+					}
+				}
+				return nil, fmt.Errorf("append of a non-constant byte: %s", facts.Term(el))
+			}
+			// append(dst, s...) — a constant string, or Address.String()
+			a := strip(arg)
+			if k, isK := a.(*ssa.Const); isK && k.Value != nil && k.Value.Kind() == constant.String {
+				return append(pre, keyTok{Lit: constant.StringVal(k.Value)}), nil
+			}
+			if sc, isCall := resolveSpill(a).(*ssa.Call); isCall && facts.CalleeName(&sc.Call) == "(N/vaa.Address).String" {
+				if err := addressStringIsHex(p); err != nil {
+					return nil, err
+				}
+				return append(pre, keyTok{Verb: "%s", Type: "vaa.Address", Fixed: 64, Alpha: "[0-9a-f]", Src: facts.Term(sc.Call.Args[0])}), nil
+			}
+			return nil, fmt.Errorf("append of %s is outside the idiom table", facts.Term(a))
+		}
+		// another key builder of the repository with a single return
+		if callee := cl.Call.StaticCallee(); callee != nil && len(callee.Blocks) > 0 && callee.Pkg != nil && strings.HasPrefix(callee.Pkg.Pkg.Path(), NodeMod) {
+			var rets []*ssa.Return
+			eachInstr(callee, func(i ssa.Instruction) {
+				if r, ok := i.(*ssa.Return); ok {
+					rets = append(rets, r)
+				}
+			})
+			if len(rets) == 1 && len(rets[0].Results) == 1 {
+				return sprintfShape(p, rets[0].Results[0])
+			}
+		}
+	}
+	// an empty buffer to append to: make([]byte, 0, n)
+	if ms, isMS := v.(*ssa.MakeSlice); isMS {
+		if k, isK := constInt(ms.Len); isK && k == 0 {
+			return nil, nil
+		}
+	}
+	if ph, isPhi := v.(*ssa.Phi); isPhi {
+		_ = ph
+	}
 	if !ok || facts.CalleeName(&cl.Call) != "fmt.Sprintf" {
 		return nil, fmt.Errorf("not []byte(fmt.Sprintf(...)): %s", facts.Term(v))
 	}
